@@ -41,7 +41,9 @@
      (F minus ENABLE_GC) [DISABLE_OP kept], the barrier additionally closing opcode 60 under
      DISABLE_OP without NEW_COST_MODEL (ChiaDialect's dispatch disables modpow there, RuntimeDialect
      does not: C30_modpow_disabled_differs).
-   * C30_run - the earlier form (same flag record on both sides), kept.
+   * C30_run - the same flag record on both sides, for every flag set without ENABLE_GC and
+     DISABLE_OP (the statement read as "flag sets minus ENABLE_GC and DISABLE_OP"): whole, no
+     further premise on the flags.
    C30_dispatch is the opcode-level fact; C30_tables the table-level one. *)
 From Clvm Require Import Model.Dialect Proofs.DialectContracts Proofs.DialectC30 Proofs.DialectLimits Proofs.DialectC30All.
 Open Scope N_scope.
@@ -60,12 +62,12 @@ Theorem C30_dispatch : forall P flags b a m ext, f_disable_op flags = false -> c
 Proof. exact dispatch_agree. Qed.
 
 Theorem C30_run : forall P flags,
-  f_enable_gc flags = false -> f_disable_op flags = false -> dialect_flags flags = flags ->
+  f_enable_gc flags = false -> f_disable_op flags = false ->
   forall fuel p e M,
   run_program (common_dialect P flags) fuel p e M <> Err Unsupported ->
   run_program (runtime_dialect P flags) fuel p e M = run_program (common_dialect P flags) fuel p e M /\
   run_program (chia_dialect P flags) fuel p e M = run_program (common_dialect P flags) fuel p e M.
-Proof. exact runtime_matches_chia. Qed.
+Proof. exact runtime_matches_chia_same. Qed.
 
 (* every operator function of either table gives the same outcome on flag sets that differ only in
    ENABLE_GC and, under NEW_COST_MODEL, in LIMITS / DISABLE_OP *)
